@@ -2,3 +2,7 @@
 void symx_make_symbolic(void* p, size_t n, const char* name);
 void symx_assume(int c);
 void symx_assert(int c, const char* msg);
+#include <stdio.h>
+FILE* symx_fopen_mem(void);
+size_t symx_file_size(FILE*);
+size_t symx_file_read(FILE*, void* dst, size_t cap);
